@@ -193,6 +193,9 @@ token!(Al64, #[repr(align(64))] {});
 token!(Al64b, #[repr(align(64))] {});
 token!(Huge2K, { pad: [u64; 255] = [0x2048204820482048; 255] });
 token!(Huge2Kb, { pad: [u64; 255] = [0x8402840284028402; 255] });
+// above one page
+token!(Huge5K, { pad: [u64; 640] = [0x5120512051205120; 640] });
+token!(Huge5Kb, { pad: [u64; 640] = [0x0215021502150215; 640] });
 token!(Al256, #[repr(align(256))] {});
 token!(Al256b, #[repr(align(256))] {});
 token!(TokBox, { b: Box<u64> = Box::new(0xB0B0) });
